@@ -218,6 +218,12 @@ def dagdepth_unit(spec, res):
     if not hasattr(sd0, "_ensure_edge"):
         count(res, "depth_harness_skipped_no_private_seam")
         return []
+    try:  # probe on the smallest shape: if the private seam no longer works this way, skip (counted) rather than alarm
+        if check_dag(lambda: sd0, 2, ((0, 1),), "asc")[0] is not None:
+            raise RuntimeError("probe failed")
+    except Exception:
+        count(res, "depth_harness_skipped_no_private_seam")
+        return []
     vio = []
     for idx, es in enumerate(dags(k, me)):
         if idx % nsh != sh:
